@@ -1232,7 +1232,7 @@ PROPS = {
     "C09": dict(module="FV.Props.C09", theorems=["FV.Props.C09_send_fault", "FV.Props.C09_session_sink_shape", "FV.Props.C09_read_error_keeps_bytes", "FV.Props.C09_receiver_retries_deliver", "FV.Props.C09_send_error_is_first_failure", "FV.Props.C09_send_kind_blind", "FV.Props.C09_async_poll_kind_blind", "FV.Props.C09_recv_error_is_pipes_error", "FV.Props.C09_recv_kind_blind", "FV.Props.C09_session_faults_surface", "FV.Props.C09_async_send_fault", "FV.Props.C09_async_session_sink_shape"], suites=["io", "aio"], proj=proj_C09, oracle=oracle_io_basic, post=post_io("C09")),
     "C10": dict(module="FV.Props.C10", theorems=["FV.Props.C10_recv_never_faults", "FV.Props.C10_flex_bad_offset_is_content_error", "FV.Props.C10_content_error_is_final", "FV.Props.C10_stream_goes_bad", "FV.Props.C10_stream_goes_bad_anywhere", "FV.Props.C10_async_recv_never_faults"], suites=["io", "aio"], proj=proj_C10, oracle=oracle_C10, post=post_io("C10")),
     "C16": dict(module="FV.Props.C16", theorems=["FV.Props.C16_size", "FV.Props.C16_byte_order", "FV.Props.C16_native_roundtrip", "FV.Props.C16_bytes_roundtrip", "FV.Props.C16_eq_iff", "FV.Props.C16_delegates", "FV.Props.C16_bool_validate", "FV.Props.C16_toNative_inRange", "FV.Props.C16_binop_sound", "FV.Props.C16_fromPrim", "FV.Props.C16_toPrim"], suites=["portable"], proj=proj_C16, oracle=oracle_C16),
-    "C17": dict(module="FV.Props.C17Ser", theorems=["FV.Props.C17_align_one", "FV.Props.C17_no_padding", "FV.Props.C17_image_is_serialisation", "FV.emplaceU_ser", "FV.flexFill_ser"], suites=["emplace", "bytes"], proj=proj_C17, oracle=oracle_C17, post=post_C17),
+    "C17": dict(module="FV.Props.C17Ser", theorems=["FV.Props.C17_align_one", "FV.Props.C17_no_padding", "FV.Props.C17_image_is_serialisation", "FV.Props.C17_length_field_is_portable_scalar", "FV.emplaceU_ser", "FV.flexFill_ser"], suites=["emplace", "bytes"], proj=proj_C17, oracle=oracle_C17, post=post_C17),
     "C19": dict(module="FV.Props.C19", theorems=["FV.Props.C19_bool", "FV.Props.C19_tag", "FV.Props.C19_fields", "FV.Props.C19_array", "FV.Props.C19_vec_elems", "FV.Props.C19_enum_payload", "FV.Props.C19_flex_items"], suites=["bytes"], proj=proj_C19, oracle=oracle_C19),
     "C06": dict(module="FV.Props.C06", theorems=["FV.Props.C06_prefix_insufficient", "FV.Props.C06_extension_same", "FV.Props.C06_extension_same_content"], suites=["bytes"], proj=proj_C06, oracle=oracle_C06),
 }
